@@ -146,7 +146,9 @@ func (f *c15Family) renderCall(c *ssa.Call) string {
 		case isIntegerT(pt):
 			parts = append(parts, f.expr(a))
 		case isFuncT(pt):
-			if c := closureOf(a); c != nil && c.Parent() != nil {
+			if c := closureOf(a); c != nil && (c.Parent() != nil || (fw.InFq(c) && fw.FnPkgPath(c) == fw.FnPkgPath(f.root))) {
+				// a closure of the decoder or a function of its package: its body is walked under the
+				// field's context either way
 				parts = append(parts, "fn")
 			} else {
 				parts = append(parts, "fn:"+f.expr(a))
@@ -184,6 +186,16 @@ func structuralGuards(b *ssa.BasicBlock) []fw.Guard {
 		}
 		// g.True was computed before Normalize; compare on the un-normalised polarity
 		if len(s.Preds) == 1 && (s == b || s.Dominates(b)) {
+			// `if ok { body } else { d.Fatalf() }` is the same decoder as `if !ok { d.Fatalf() }; body`:
+			// when the other arm never completes, the condition is an assertion (listed with the error
+			// arm itself), not a condition of the body
+			other := ib.Succs[0]
+			if g.True {
+				other = ib.Succs[1]
+			}
+			if fw.CurrentNR != nil && other != s && len(other.Preds) == 1 && fw.CurrentNR.BlockFails(other) && !fw.CurrentNR.BlockFails(s) && !c15InDispatch(ib) {
+				continue
+			}
 			out = append(out, g)
 		}
 	}
@@ -231,6 +243,9 @@ func (f *c15Family) guardsOfX(b *ssa.BasicBlock, full bool, edge *ssa.BasicBlock
 	}
 	for _, g := range gs {
 		g = g.Normalize()
+		if !g.True && c15CountedLoopCond(g.Cond) {
+			continue // "after the loop": the classic form has this edge, the rotated form does not
+		}
 		s := f.expr(g.Cond)
 		if bo, ok := g.Cond.(*ssa.BinOp); ok && g.True && bo.Op == token.LSS {
 			if phi, ok := bo.X.(*ssa.Phi); ok {
@@ -245,6 +260,10 @@ func (f *c15Family) guardsOfX(b *ssa.BasicBlock, full bool, edge *ssa.BasicBlock
 		}
 		if g.True {
 			set[s] = true
+			continue
+		}
+		if strings.HasPrefix(s, "!") && balanced(s[1:]) && !strings.Contains(s, " ") {
+			set[s[1:]] = true // !NotEnd = End
 			continue
 		}
 		if bo, ok := g.Cond.(*ssa.BinOp); ok && bo.Op == token.EQL && !full {
@@ -391,17 +410,19 @@ func (w *c15World) layout(root *ssa.Function) map[string][]c15Entry {
 					// the stored size is 0, l-1 / l+1 on a delta bit): one entry per incoming value with the
 					// condition of its edge, so that a negated or moved condition is seen
 					if !w.branches && c15MergePhi(x) {
+						live := c15LiveEdges(x)
 						vals := map[string]bool{}
-						for _, e := range x.Edges {
-							vals[f.renderArg(e)] = true
+						clean := true
+						for _, i := range live {
+							v := f.renderArg(x.Edges[i])
+							vals[v] = true
+							if strings.Contains(v, "↺") || strings.Contains(v, "phi{") || strings.Contains(v, "iv(") {
+								clean = false // loop-carried or nested: an artefact of the loop form / has its own entries
+							}
 						}
-						if len(vals) > 1 {
-							for i, e := range x.Edges {
-								v := f.renderArg(e)
-								if strings.Contains(v, "↺") || strings.Contains(v, "phi{") {
-									continue // loop-carried, or a nested merge that has its own entries
-								}
-								addG("merge("+v+")", ins, nil, f.guardsOfX(b.Preds[i], false, b))
+						if clean && len(vals) > 1 {
+							for _, i := range live {
+								addG("merge("+f.renderArg(x.Edges[i])+")", ins, nil, f.guardsOfX(b.Preds[i], false, b))
 							}
 						}
 					}
@@ -447,7 +468,9 @@ func (w *c15World) layout(root *ssa.Function) map[string][]c15Entry {
 					}
 				case *ssa.If:
 					if w.branches {
-						add("branch("+f.expr(x.Cond)+")", ins, nil)
+						if !c15CountedLoopIf(x) {
+							add("branch("+f.expr(x.Cond)+")", ins, nil)
+						}
 					} else if ex := c15BreakEdge(b); ex != nil {
 						// a break out of a search/scan loop (bzip2's footer search, tar's zero block scan):
 						// the condition under which the loop is left early
@@ -933,6 +956,9 @@ func c15MergePhi(x *ssa.Phi) bool {
 		return false // rendered as min/max: the selecting condition is part of that meaning
 	}
 	b := x.Block()
+	if blockReachesStrict(b, b) {
+		return false // inside a loop: running values, their shape depends on the loop form
+	}
 	for _, pred := range b.Preds {
 		if b.Dominates(pred) {
 			return false // loop header
@@ -1001,16 +1027,8 @@ func c15BreakEdge(b *ssa.BasicBlock) *ssa.BasicBlock {
 		return nil
 	}
 	ifi := b.Instrs[len(b.Instrs)-1].(*ssa.If)
-	if bo, ok := ifi.Cond.(*ssa.BinOp); ok {
-		for _, op := range []ssa.Value{bo.X, bo.Y} {
-			if add, ok := op.(*ssa.BinOp); ok && add.Op == token.ADD {
-				if ph, ok := add.X.(*ssa.Phi); ok {
-					if _, ok := ivStart(ph); ok {
-						return nil // latch of a counted loop
-					}
-				}
-			}
-		}
+	if c15CountedLoopIf(ifi) {
+		return nil
 	}
 	t, e := blockReachesStrict(b.Succs[0], b) || b.Succs[0] == b, blockReachesStrict(b.Succs[1], b) || b.Succs[1] == b
 	switch {
@@ -1036,6 +1054,112 @@ func blockReachesStrict(from, to *ssa.BasicBlock) bool {
 			return true
 		}
 		stack = append(stack, x.Succs...)
+	}
+	return false
+}
+
+// c15CountedLoopCond: iv < N or iv+1 < N for an induction variable iv (c0, +1 per round): the
+// condition of a counted loop in its classic (tested at the top) or rotated (tested at the latch) form.
+func c15CountedLoopCond(v ssa.Value) bool {
+	for {
+		u, ok := v.(*ssa.UnOp)
+		if !ok || u.Op != token.NOT {
+			break
+		}
+		v = u.X
+	}
+	bo, ok := v.(*ssa.BinOp)
+	if !ok {
+		return false
+	}
+	isIv := func(x ssa.Value) bool {
+		x = stripConv(x)
+		if ph, ok := x.(*ssa.Phi); ok {
+			_, ok := ivStart(ph)
+			return ok
+		}
+		if add, ok := x.(*ssa.BinOp); ok && add.Op == token.ADD {
+			if ph, ok := add.X.(*ssa.Phi); ok {
+				if k, isC := add.Y.(*ssa.Const); isC && k.Value != nil && k.Value.ExactString() == "1" {
+					_, ok := ivStart(ph)
+					return ok
+				}
+			}
+		}
+		return false
+	}
+	switch bo.Op {
+	case token.LSS, token.LEQ, token.NEQ:
+		return isIv(bo.X)
+	case token.GTR, token.GEQ:
+		return isIv(bo.Y)
+	}
+	return false
+}
+
+// c15CountedLoopIf: the If is the test of a counted loop: at the top (classic), at the latch
+// (rotated), or the zero-trip test in front of a rotated loop (c0 < N leading to the body whose
+// latch tests iv+1 < N).
+func c15CountedLoopIf(ifi *ssa.If) bool {
+	if c15CountedLoopCond(ifi.Cond) {
+		return true
+	}
+	bo, ok := ifi.Cond.(*ssa.BinOp)
+	if !ok || bo.Op != token.LSS {
+		return false
+	}
+	c, ok := bo.X.(*ssa.Const)
+	if !ok || c.Value == nil {
+		return false
+	}
+	body := ifi.Block().Succs[0]
+	for _, ins := range body.Instrs {
+		ph, ok := ins.(*ssa.Phi)
+		if !ok {
+			break
+		}
+		c0, ok := ivStart(ph)
+		if !ok || c0 != c.Value.ExactString() {
+			continue
+		}
+		for i, pred := range body.Preds {
+			li, ok := pred.Instrs[len(pred.Instrs)-1].(*ssa.If)
+			if !ok || pred == ifi.Block() {
+				continue
+			}
+			lb, ok := li.Cond.(*ssa.BinOp)
+			if ok && lb.Op == token.LSS && lb.X == ph.Edges[i] && lb.Y == bo.Y {
+				return true
+			}
+		}
+	}
+	return false
+}
+
+// c15InDispatch: the If is a later test of a multi-way dispatch (switch): its block is entered by
+// the false edge of another If that tests the same value for equality. The failing arm behind the
+// last test of such a chain is the default of the dispatch, not an assertion about one condition.
+func c15InDispatch(ib *ssa.BasicBlock) bool {
+	ifi, ok := ib.Instrs[len(ib.Instrs)-1].(*ssa.If)
+	if !ok {
+		return false
+	}
+	bo, ok := ifi.Cond.(*ssa.BinOp)
+	if !ok || bo.Op != token.EQL {
+		return false
+	}
+	for _, pred := range ib.Preds {
+		pi, ok := pred.Instrs[len(pred.Instrs)-1].(*ssa.If)
+		if !ok || len(pred.Succs) != 2 || pred.Succs[1] != ib {
+			continue
+		}
+		pb, ok := pi.Cond.(*ssa.BinOp)
+		if !ok || pb.Op != token.EQL {
+			continue
+		}
+		if pb.X == bo.X || pb.X == bo.Y || pb.Y == bo.X || pb.Y == bo.Y {
+			return true
+		}
 	}
 	return false
 }
